@@ -350,6 +350,14 @@ def cli_jobs(rng, rep, thorough):
         ts += ["".join(special[(j * 12 + k) % len(special)] for k in range(n)) + ".png" for n in (1, 2, 5, 6, 7, 8, 13, 14, 15, 16)]
         jobs.append(("anm_%d" % j, "truanm", "12", "".join(ANM_ENTRY % lit(t) for t in ts), ts, "entry paths", "roundtrip"))
     jobs.append(("anm_emoji", "truanm", "12", ANM_ENTRY % lit("a⏄.png"), ["a⏄.png"], "unencodable path", "either"))
+    # modern ECL: the ANIM / ECLI string lists of the header (variable-length, NUL-terminated, padded to 4 bytes
+    # as a whole): every total length modulo 4, ASCII and multi-byte
+    for j in range(16 if thorough else 8):
+        for game in ("10",):       # (the only modern game with built-in ECL signatures)
+            anim = ["".join(rng.choice(chars) for _ in range(n)) + ".anm" for n in ((j + k) % 5 for k in range(1 + j % 3))]
+            ecli = ["".join(rng.choice(chars) for _ in range(n)) + ".ecl" for n in ((2 * j + k) % 4 for k in range(j % 3))]
+            src = "meta { anim: [%s], ecli: [%s] }\nvoid main() {\n    ins_10();\n}\n" % (", ".join(lit(t) for t in anim), ", ".join(lit(t) for t in ecli))
+            jobs.append(("ecl%s_meta_%d" % (game, j), "truecl", game, src, list(dict.fromkeys(anim + ecli)), "anim/ecli lists", "roundtrip"))
     return jobs
 
 
